@@ -123,6 +123,363 @@ theorem RL.final_noRefresh {hash : Key → S} (ops : List (Op S R V)) :
 
 end RL
 
+/-! ## Small-step rule-list filter (RWMutex discipline) -/
+
+section RLS
+variable {S R V : Type} [DecidableEq S]
+
+def WPhase.PendingCF : WPhase R V → Prop
+  | .idle => True
+  | .locked e => ClientFree e
+  | .cleared e => ClientFree e
+
+/-- The engine an operation installs (if any) is client-free. -/
+def ROp.CF : ROp S R V → Prop
+  | .wlock e => ClientFree e
+  | _ => True
+
+structure RLS.Inv (hash : Key → S) (s : RLS S R V) : Prop where
+  /-- mutual exclusion: while the write lock is held there is no reader -/
+  excl : s.writer.isIdle = false → s.readers = []
+  cache_ok : ∀ slot it, s.cache slot = some it →
+    ∃ k, hash k = slot ∧ k.host = it.host ∧ ∀ r, it.val = s.engine k r
+  thr_ok : ∀ t ∈ s.readers, ∀ v, t.phase = some (some v) → v = s.engine t.key t.req
+  cleared : ∀ e, s.writer = .cleared e → ∀ slot, s.cache slot = none
+  cf : ClientFree s.engine
+  pcf : s.writer.PendingCF
+
+theorem mem_of_findR {ts : List (RThread R V)} {tid : Nat} {t : RThread R V}
+    (h : findR ts tid = some t) : t ∈ ts := by
+  unfold findR at h
+  exact List.mem_of_find?_eq_some h
+
+theorem mem_of_mem_dropR {ts : List (RThread R V)} {tid : Nat} {t : RThread R V}
+    (h : t ∈ dropR ts tid) : t ∈ ts := by
+  unfold dropR at h
+  exact (List.mem_filter.mp h).1
+
+theorem RLS.init_inv (hash : Key → S) (e : Key → R → V) (he : ClientFree e) :
+    (RLS.init e : RLS S R V).Inv hash :=
+  ⟨by intro h; rfl, by intro slot it h; simp [RLS.init, Tbl.empty] at h,
+   by intro t h; simp [RLS.init] at h, by intro e' h; simp [RLS.init] at h, he, trivial⟩
+
+theorem RLS.lookup_current {hash : Key → S} (hok : HashOK hash) {s : RLS S R V} (hi : s.Inv hash)
+    {k : Key} {v : V} (h : s.lookup hash k = some v) : ∀ r, v = s.engine k r := by
+  unfold RLS.lookup at h
+  split at h
+  · rename_i it hc
+    split at h
+    · rename_i hh
+      obtain ⟨k', hk, hh', hv⟩ := hi.cache_ok _ _ hc
+      have : k' = k := by
+        cases k' with
+        | mk h1 s1 =>
+          cases k with
+          | mk h2 s2 =>
+            simp only at hh hh'
+            have e1 : h1 = h2 := by rw [hh', hh]
+            subst e1
+            have := hok h1 s1 s2 hk
+            rw [this]
+      subst this
+      intro r
+      simp only [Option.some.injEq] at h
+      rw [← h]
+      exact hv r
+    · simp at h
+  · simp at h
+
+theorem RLS.step_inv {hash : Key → S} {s : RLS S R V} (hi : s.Inv hash) (op : ROp S R V)
+    (hop : op.CF) : (s.step true hash op).1.Inv hash := by
+  cases op with
+  | rlock tid k r =>
+    simp only [RLS.step, Bool.true_and]
+    split
+    · exact hi
+    · rename_i hw
+      have hidle : s.writer.isIdle = true := by simpa using hw
+      refine ⟨?_, hi.cache_ok, ?_, hi.cleared, hi.cf, hi.pcf⟩
+      · intro h; simp [hidle] at h
+      · intro t ht v hv
+        rcases List.mem_cons.mp ht with h | h
+        · subst h; simp at hv
+        · exact hi.thr_ok t (mem_of_mem_dropR h) v hv
+  | get tid =>
+    simp only [RLS.step]
+    split
+    · rename_i t hf
+      have htm := mem_of_findR hf
+      split
+      · split
+        · refine ⟨?_, hi.cache_ok, ?_, hi.cleared, hi.cf, hi.pcf⟩
+          · intro h
+            have := hi.excl h
+            simp [this, dropR]
+          · intro t' ht' v hv
+            exact hi.thr_ok t' (mem_of_mem_dropR ht') v hv
+        · refine ⟨?_, hi.cache_ok, ?_, hi.cleared, hi.cf, hi.pcf⟩
+          · intro h
+            have := hi.excl h
+            rw [this] at htm
+            simp at htm
+          · intro t' ht' v hv
+            rcases List.mem_cons.mp ht' with h | h
+            · subst h; simp at hv
+            · exact hi.thr_ok t' (mem_of_mem_dropR h) v hv
+      · exact hi
+    · exact hi
+  | mtch tid =>
+    simp only [RLS.step]
+    split
+    · rename_i t hf
+      have htm := mem_of_findR hf
+      split
+      · refine ⟨?_, hi.cache_ok, ?_, hi.cleared, hi.cf, hi.pcf⟩
+        · intro h
+          have := hi.excl h
+          rw [this] at htm
+          simp at htm
+        · intro t' ht' v hv
+          rcases List.mem_cons.mp ht' with h | h
+          · subst h
+            simp only [Option.some.injEq] at hv
+            exact hv.symm
+          · exact hi.thr_ok t' (mem_of_mem_dropR h) v hv
+      · exact hi
+    · exact hi
+  | set tid =>
+    simp only [RLS.step]
+    split
+    · rename_i t hf
+      have htm := mem_of_findR hf
+      split
+      · rename_i v hph
+        have hv := hi.thr_ok t htm v hph
+        have hne : s.writer.isIdle = true := by
+          cases hw : s.writer.isIdle with
+          | true => rfl
+          | false =>
+            have := hi.excl hw
+            rw [this] at htm
+            simp at htm
+        refine ⟨?_, ?_, ?_, ?_, hi.cf, hi.pcf⟩
+        · intro h; simp [hne] at h
+        · intro slot it hc
+          simp only [Tbl.put] at hc
+          split at hc
+          · rename_i hs
+            simp only [Option.some.injEq] at hc
+            subst hc
+            refine ⟨t.key, hs.symm, rfl, ?_⟩
+            intro r
+            simp only
+            rw [hv]
+            exact hi.cf t.key t.req r
+          · exact hi.cache_ok slot it hc
+        · intro t' ht' v' hv'
+          exact hi.thr_ok t' (mem_of_mem_dropR ht') v' hv'
+        · intro e he
+          simp only at he
+          rw [he] at hne
+          simp [WPhase.isIdle] at hne
+      · exact hi
+    · exact hi
+  | wlock e =>
+    simp only [RLS.step, Bool.true_and]
+    split
+    · split
+      · exact hi
+      · rename_i hw hr
+        have hre : s.readers = [] := by simpa using hr
+        refine ⟨fun _ => hre, hi.cache_ok, hi.thr_ok, ?_, hi.cf, hop⟩
+        intro e' he'
+        simp at he'
+    · exact hi
+  | wclear =>
+    simp only [RLS.step]
+    split
+    · rename_i e hw
+      have hre : s.readers = [] := hi.excl (by rw [hw]; rfl)
+      have hp := hi.pcf
+      rw [hw] at hp
+      refine ⟨fun _ => hre, ?_, hi.thr_ok, ?_, hi.cf, hp⟩
+      · intro slot it hc; simp [Tbl.empty] at hc
+      · intro e' _ slot; rfl
+    · exact hi
+  | wswap =>
+    simp only [RLS.step]
+    split
+    · rename_i e hw
+      have hre : s.readers = [] := hi.excl (by rw [hw]; rfl)
+      have hp := hi.pcf
+      rw [hw] at hp
+      have hcl := hi.cleared e hw
+      refine ⟨?_, ?_, ?_, ?_, hp, trivial⟩
+      · intro h; simp [WPhase.isIdle] at h
+      · intro slot it hc
+        simp only at hc
+        rw [hcl slot] at hc
+        simp at hc
+      · intro t ht
+        simp only at ht
+        rw [hre] at ht
+        simp at ht
+      · intro e' he'
+        simp at he'
+    · exact hi
+  | evict sl =>
+    refine ⟨hi.excl, ?_, hi.thr_ok, ?_, hi.cf, hi.pcf⟩
+    · intro slot it hc
+      simp only [RLS.step, Tbl.del] at hc
+      split at hc
+      · simp at hc
+      · exact hi.cache_ok slot it hc
+    · intro e he slot
+      simp only [RLS.step, Tbl.del]
+      split
+      · rfl
+      · exact hi.cleared e he slot
+
+theorem RLS.final_inv {hash : Key → S} (ops : List (ROp S R V)) :
+    ∀ (s : RLS S R V), s.Inv hash → ROpsClientFree ops → (RLS.final true hash s ops).Inv hash := by
+  induction ops with
+  | nil => intro s hi _; exact hi
+  | cons op ops ih =>
+    intro s hi hops
+    cases op with
+    | wlock e => exact ih _ (RLS.step_inv hi (.wlock e) hops.1) hops.2
+    | rlock tid k r => exact ih _ (RLS.step_inv hi (.rlock tid k r) trivial) hops
+    | get tid => exact ih _ (RLS.step_inv hi (.get tid) trivial) hops
+    | mtch tid => exact ih _ (RLS.step_inv hi (.mtch tid) trivial) hops
+    | set tid => exact ih _ (RLS.step_inv hi (.set tid) trivial) hops
+    | wclear => exact ih _ (RLS.step_inv hi .wclear trivial) hops
+    | wswap => exact ih _ (RLS.step_inv hi .wswap trivial) hops
+    | evict sl => exact ih _ (RLS.step_inv hi (.evict sl) trivial) hops
+
+/-- Whatever a step returns to a lookup is the current engine's answer for that lookup. -/
+theorem RLS.step_out {hash : Key → S} (hok : HashOK hash) {s : RLS S R V} (hi : s.Inv hash)
+    (op : ROp S R V) {v : V} (h : (s.step true hash op).2 = some v) :
+    ∃ t ∈ s.readers, v = s.engine t.key t.req := by
+  cases op with
+  | get tid =>
+    simp only [RLS.step] at h
+    split at h
+    · rename_i t hf
+      split at h
+      · split at h
+        · rename_i v' hl
+          simp only [Option.some.injEq] at h
+          subst h
+          exact ⟨t, mem_of_findR hf, RLS.lookup_current hok hi hl t.req⟩
+        · simp at h
+      · simp at h
+    · simp at h
+  | set tid =>
+    simp only [RLS.step] at h
+    split at h
+    · rename_i t hf
+      split at h
+      · rename_i v' hph
+        simp only [Option.some.injEq] at h
+        subst h
+        exact ⟨t, mem_of_findR hf, hi.thr_ok t (mem_of_findR hf) _ hph⟩
+      · simp at h
+    · simp at h
+  | rlock tid k r => simp only [RLS.step] at h; split at h <;> simp at h
+  | mtch tid =>
+    simp only [RLS.step] at h
+    split at h
+    · split at h <;> simp at h
+    · simp at h
+  | wlock e =>
+    simp only [RLS.step] at h
+    split at h
+    · split at h <;> simp at h
+    · simp at h
+  | wclear => simp only [RLS.step] at h; split at h <;> simp at h
+  | wswap => simp only [RLS.step] at h; split at h <;> simp at h
+  | evict sl => simp [RLS.step] at h
+
+/-- No refresh starts in the history. -/
+def NoWlock : List (ROp S R V) → Prop
+  | [] => True
+  | .wlock _ :: _ => False
+  | _ :: ops => NoWlock ops
+
+theorem NoWlock.cf : ∀ (ops : List (ROp S R V)), NoWlock ops → ROpsClientFree ops
+  | [], _ => trivial
+  | .wlock _ :: _, h => by simp [NoWlock] at h
+  | .rlock _ _ _ :: ops, h => NoWlock.cf ops (by simpa [NoWlock] using h)
+  | .get _ :: ops, h => NoWlock.cf ops (by simpa [NoWlock] using h)
+  | .mtch _ :: ops, h => NoWlock.cf ops (by simpa [NoWlock] using h)
+  | .set _ :: ops, h => NoWlock.cf ops (by simpa [NoWlock] using h)
+  | .wclear :: ops, h => NoWlock.cf ops (by simpa [NoWlock] using h)
+  | .wswap :: ops, h => NoWlock.cf ops (by simpa [NoWlock] using h)
+  | .evict _ :: ops, h => NoWlock.cf ops (by simpa [NoWlock] using h)
+
+/-- Without a new refresh an idle writer stays idle and the engine stays. -/
+theorem RLS.final_noWlock {hash : Key → S} (ops : List (ROp S R V)) :
+    ∀ (s : RLS S R V), s.writer = .idle → NoWlock ops →
+      (RLS.final true hash s ops).engine = s.engine ∧ (RLS.final true hash s ops).writer = .idle := by
+  induction ops with
+  | nil => intro s hw _; exact ⟨rfl, hw⟩
+  | cons op ops ih =>
+    intro s hw hn
+    have key : (s.step true hash op).1.engine = s.engine ∧ (s.step true hash op).1.writer = .idle := by
+      cases op with
+      | wlock e => simp [NoWlock] at hn
+      | rlock tid k r => simp only [RLS.step]; split <;> exact ⟨rfl, hw⟩
+      | get tid =>
+        simp only [RLS.step]
+        split
+        · split
+          · split <;> exact ⟨rfl, hw⟩
+          · exact ⟨rfl, hw⟩
+        · exact ⟨rfl, hw⟩
+      | mtch tid =>
+        simp only [RLS.step]
+        split
+        · split <;> exact ⟨rfl, hw⟩
+        · exact ⟨rfl, hw⟩
+      | set tid =>
+        simp only [RLS.step]
+        split
+        · split <;> exact ⟨rfl, hw⟩
+        · exact ⟨rfl, hw⟩
+      | wclear => simp [RLS.step, hw]
+      | wswap => simp [RLS.step, hw]
+      | evict sl => exact ⟨rfl, hw⟩
+    have hn' : NoWlock ops := by
+      cases op <;> simp_all [NoWlock]
+    have := ih _ key.2 hn'
+    simp only [RLS.final]
+    exact ⟨by rw [this.1, key.1], this.2⟩
+
+end RLS
+
+/-- Quiescent small-step state that corresponds to an atomic state. -/
+def RLS.Sim {S R V : Type} (sm : RLS S R V) (s : RL S R V) : Prop :=
+  sm.engine = s.engine ∧ sm.cache = s.cache ∧ sm.readers = [] ∧ sm.writer = .idle ∧ s.enabled = true
+
+theorem RLS.atomic_sim {S R V : Type} [DecidableEq S] (hash : Key → S) {sm : RLS S R V} {s : RL S R V}
+    (h : sm.Sim s) (op : Op S R V) :
+    (sm.atomic hash op).2 = (s.step hash op).2 ∧ (sm.atomic hash op).1.Sim (s.step hash op).1 := by
+  obtain ⟨he, hc, hr, hw, hen⟩ := h
+  cases op with
+  | query k r =>
+    cases hl : s.lookup hash k with
+    | some v =>
+      simp only [RLS.atomic, RLS.step, hw, hr, WPhase.isIdle, dropR, findR, RLS.lookup, RL.step, hl]
+      simp only [RL.lookup, hen, if_true] at hl
+      simp [hc, hl, RLS.Sim, he, hen]
+    | none =>
+      simp only [RLS.atomic, RLS.step, hw, hr, WPhase.isIdle, dropR, findR, RLS.lookup, RL.step, hl]
+      simp only [RL.lookup, hen, if_true] at hl
+      simp [hc, hl, RLS.Sim, he, hen]
+  | refresh e => simp [RLS.atomic, RLS.step, hw, hr, RL.step, RLS.Sim, hen]
+  | evict sl => simp [RLS.atomic, RLS.step, RL.step, RLS.Sim, he, hc, hr, hw, hen]
+
+
 /-! ## Hash-prefix filter -/
 
 theorem mem_of_findThread {ts : List Thread} {tid : Nat} {t : Thread} (h : findThread ts tid = some t) :
@@ -316,5 +673,65 @@ end HP
 /-- Every cached engine was built from a configuration seen earlier for that profile. -/
 def CU.Inv (seen : List Conf) (s : CU) : Prop :=
   ∀ id it, s id = some it → ∃ c ∈ seen, c.id = id ∧ c.upd = it.upd ∧ c.rules = it.rules
+
+structure CUS.Inv (seen : List Conf) (s : CUS) : Prop where
+  cache_ok : ∀ id it, s.cache id = some it → ∃ c ∈ seen, c.id = id ∧ c.upd = it.upd ∧ c.rules = it.rules
+  thr_ok : ∀ t ∈ s.threads, t.conf ∈ seen
+
+theorem CUS.Inv.mono {seen : List Conf} {s : CUS} (c : Conf) (hi : s.Inv seen) : s.Inv (c :: seen) :=
+  ⟨fun id it h => by
+      obtain ⟨c', hm, h1, h2, h3⟩ := hi.cache_ok id it h
+      exact ⟨c', List.mem_cons_of_mem _ hm, h1, h2, h3⟩,
+   fun t ht => List.mem_cons_of_mem _ (hi.thr_ok t ht)⟩
+
+/-- The configurations a step adds to the history. -/
+def CSOp.seenAfter (seen : List Conf) : CSOp → List Conf
+  | .get _ c => c :: seen
+  | _ => seen
+
+theorem CUS.step_inv {seen : List Conf} {s : CUS} (hi : s.Inv seen) (op : CSOp) :
+    (s.step op).1.Inv (op.seenAfter seen) := by
+  cases op with
+  | get tid c =>
+    have hm := hi.mono c
+    have hadd : CUS.Inv (c :: seen)
+        { s with threads := ⟨tid, c⟩ :: s.threads.filter (fun t => t.tid ≠ tid) } := by
+      refine ⟨hm.cache_ok, ?_⟩
+      intro t ht
+      rcases List.mem_cons.mp ht with h | h
+      · subst h; exact List.mem_cons_self
+      · exact hm.thr_ok t (List.mem_filter.mp h).1
+    simp only [CUS.step, CSOp.seenAfter]
+    split
+    · exact hm
+    · split
+      · split
+        · exact hadd
+        · exact hm
+      · exact hadd
+  | set tid =>
+    simp only [CUS.step, CSOp.seenAfter]
+    split
+    · rename_i t hf
+      have htm : t ∈ s.threads := List.mem_of_find?_eq_some hf
+      refine ⟨?_, ?_⟩
+      · intro id it hc
+        simp only [Tbl.put] at hc
+        split at hc
+        · rename_i hid
+          simp only [Option.some.injEq] at hc
+          subst hc
+          exact ⟨t.conf, hi.thr_ok t htm, hid.symm, rfl, rfl⟩
+        · exact hi.cache_ok id it hc
+      · intro t' ht'
+        exact hi.thr_ok t' (List.mem_filter.mp ht').1
+    · exact hi
+  | evict id =>
+    refine ⟨?_, hi.thr_ok⟩
+    intro id' it hc
+    simp only [CUS.step, Tbl.del] at hc
+    split at hc
+    · simp at hc
+    · exact hi.cache_ok id' it hc
 
 end Agd.ResultCache
